@@ -40,6 +40,7 @@ static Plan c08_gen(uint64_t seed, int tier, uint64_t index) {
     for (int i = 0; i < nf; i++) {
         if (r.chance(2, 3)) { p.ops.push_back(Op("steps", (int64_t) r.below(8))); }
         add_fault(r, p, aead);
+        if (ver >= 3 && r.chance(1, 3)) { p.ops.push_back(Op("steps", (int64_t) r.below(3))); p.ops.push_back(Op("timer", (int64_t) r.below(2))); }   // DTLS: a resend timer fires right behind the fault
         if (aead && r.chance(1, 4)) { p.ops.push_back(Op("ptmut", (int64_t) r.below(2), (int64_t) r.below(6), (int64_t) r.below(4096), (int64_t) r.below(1u << 20))); }
     }
     p.ops.push_back(Op("hs"));
@@ -54,6 +55,7 @@ static Plan c08_gen(uint64_t seed, int tier, uint64_t index) {
     }
     p.ops.push_back(Op("pump"));
     if (r.chance(1, 3)) { p.ops.push_back(Op("close", (int64_t) r.below(2))); p.ops.push_back(Op("pump")); }
+    if (ver >= 3 && r.chance(1, 2)) { p.ops.push_back(Op("timer", (int64_t) r.below(2))); p.ops.push_back(Op("timer", (int64_t) r.below(2))); p.ops.push_back(Op("pump")); }
     return p;
 }
 
